@@ -71,6 +71,8 @@ type concExec struct {
 	rotatedAt   int64 // gcWrites when the destination was first seen rotated onto the source file
 	cancelPlaced bool
 	rotSeen      bool
+	stormStop    bool
+	stormLive    int
 	firstDst     int
 	slowPath    string // data file and offset of the record the slow reader looked up
 	slowOff     int64
@@ -794,6 +796,9 @@ func runConc(plan *Plan, tape *simrt.Tape) *Outcome {
 		if !ok {
 			return
 		}
+		// no administrator request arrives during the final shutdown: stop the request storm first
+		x.stormStop = true
+		w.WaitCond("storm-stopped", func() bool { return x.stormLive == 0 })
 		// wait for GC passes to end
 		for _, tid := range x.gcTasks {
 			tid := tid
@@ -1001,8 +1006,10 @@ func (x *concExec) runEnv(env []Op) {
 				// competing requests from a second task, repeated over the whole lifetime of the
 				// first pass (also its final deferred steps: truncate, hint dump, deregistration)
 				gaps := NewRng(uint64(op.ID)*977 + x.plan.Seed)
+				x.stormLive++
 				w.GoHarness("gc2", func() {
-					for i := 0; i < 60; i++ {
+					defer func() { x.stormLive-- }()
+					for i := 0; i < 60 && !x.stormStop; i++ {
 						// same bounded-delay assumption as for the first request
 						w.WaitCondSteps("rotated-flush-done", 200000, func() bool { return w.TasksDone("ds.flush", 0) })
 						do()
@@ -1281,12 +1288,14 @@ func (x *concExec) checkGCOverlap() {
 			a, b := passes[i], passes[j]
 			// a pass is "in progress" from its acceptance to its last disk mutation (the few
 			// statements after its deregistration do not count)
+			// (whether the task has formally returned is not used: a pass that has deregistered
+			// itself may be starved of its last scheduling until the world ends)
 			aEnd, bEnd := x.lastFS[a.ID], x.lastFS[b.ID]
-			if !a.Done {
-				aEnd = 1 << 62
+			if aEnd < a.FirstStep {
+				aEnd = a.FirstStep
 			}
-			if !b.Done {
-				bEnd = 1 << 62
+			if bEnd < b.FirstStep {
+				bEnd = b.FirstStep
 			}
 			if a.FirstStep < bEnd && b.FirstStep < aEnd {
 				x.fail("R-gc-overlap", "", fmt.Sprintf("two GC passes on one bucket were accepted and alive at the same time: task %d steps [%d,%d] and task %d steps [%d,%d]",
